@@ -334,6 +334,7 @@ func leadsToLoopNotReturn(b *ssa.BasicBlock) bool {
 
 func C18(c *Ctx) {
 	c.Note("exclusion of overlapping [start, commit] intervals across regions; idempotence of re-applied raft log entries as a history property; timestamps supplied by clients being unique")
+	commitAllOrNothing(c, "K1.commit-refused-before-any-write")
 	const r1 = "K8.rollback-record-excluded"
 	c.Rule(r1, "every use of Reader.GetWriteByStartTs (Commit, commitKey, rollbackKey, CheckTxnStatus) compares the found write's Kind with Mutation_Rollback before treating it as evidence of a commit (before any path that reports success / a commit version)")
 	ops := opConsts(c)
@@ -1307,4 +1308,74 @@ func minCommitReach(c *Ctx, fn *ssa.Function, wr Matcher) (below, atOrAbove bool
 	below = reach(-1)
 	atOrAbove = reach(0) && reach(1)
 	return
+}
+
+// commitAllOrNothing: percolator.Commit handles several keys under one latch.  A refusal (the
+// transaction was rolled back, the lock belongs to someone else, the commit version is below the
+// lock's minimum) decided for a later key after an earlier key has already been committed leaves
+// a refused transaction partly committed.  Necessary condition: no per-key decision read
+// (Reader.GetLock) is reachable from a write site of Commit – all keys are examined before the
+// first write – and a commit version below the start version reaches no write at all.
+func commitAllOrNothing(c *Ctx, rule string) {
+	c.Rule(rule, "percolator.Commit examines every key (Reader.GetLock and the refusal tests) before its first write: no GetLock call is reachable from a site that writes a commit record or removes a lock; a request with CommitVersion < StartVersion reaches no write (order-sign evaluation)")
+	fn := c.Fn("percolator", "Commit")
+	if fn == nil {
+		return
+	}
+	wrM := Named("NoKV.(*DB).SetVersionedEntry", "NoKV.(*DB).DeleteVersionedEntry")
+	writes := effectSites(c, fn, func(ci ssa.CallInstruction) bool { return wrM(ci.Common()) }, 2)
+	gets := Calls(fn, false, Named("percolator.(*Reader).GetLock"))
+	if len(writes) == 0 || len(gets) == 0 {
+		c.Fail(rule, key(fn, "has:GetLock+writes"), fn.Pos(), 1, "cannot find the lock reads (%d) and the write sites (%d) of Commit", len(gets), len(writes))
+		return
+	}
+	for i, w := range writes {
+		bad := false
+		for _, g := range gets {
+			if w.Block() == g.Block() {
+				// same block: the read precedes the write in that block, but a loop brings it back
+				if blockInLoop(w.Block()) {
+					bad = true
+				}
+				continue
+			}
+			if blockReaches(w.Block(), g.Block()) {
+				bad = true
+			}
+		}
+		c.Decide(!bad, rule, key(fn, fmt.Sprintf("write[%d]#no-later-decision", i+1)), w.Pos(), len(gets)+1, "every key has been examined when the first write happens",
+			"a key's lock is read (and the commit possibly refused) after an earlier key of the same request has been committed: a Commit answered with Abort / CommitTsExpired / Locked leaves the keys before the failing one committed (a rolled-back transaction becomes partly visible)")
+	}
+	// CommitVersion >= StartVersion
+	role := func(v ssa.Value) string {
+		v = Unwrap(v)
+		if isFieldLoad(v, "pb.CommitRequest", "CommitVersion") {
+			return "cv"
+		}
+		if isFieldLoad(v, "pb.CommitRequest", "StartVersion") {
+			return "sv"
+		}
+		if call, ok := v.(*ssa.Call); ok {
+			switch FuncName(StaticFn(call.Common())) {
+			case "(*pb.CommitRequest).GetCommitVersion":
+				return "cv"
+			case "(*pb.CommitRequest).GetStartVersion":
+				return "sv"
+			}
+		}
+		return ""
+	}
+	reach := func(sg int) bool {
+		signs := map[string]int{}
+		SetSign(signs, "cv", "sv", sg)
+		env := &SignEnv{Role: role, Signs: signs, Depth: 1}
+		for _, w := range writes {
+			if env.Reaches(fn, w.(ssa.Instruction)) {
+				return true
+			}
+		}
+		return false
+	}
+	c.Decide(!reach(-1) && reach(1), rule, key(fn, "CommitVersion>=StartVersion"), fn.Pos(), 3, "a commit version below the start version is refused before any write",
+		"Commit accepts CommitVersion < StartVersion: the commit record is written below the start version, GetWriteByStartTs (which stops at ts < startTs) never finds it again, a repeated Commit fails with `lock not found` and a later rollback writes a rollback marker for a committed transaction")
 }
